@@ -24,6 +24,106 @@ EXPLANATION = (
     'to a 1-tuple; the horizon+1 row count follows from the solve loop bound. Round-trip precision of values is not decided.')
 
 
+def _is_priority(e):
+    return isinstance(e, ast.Attribute) and e.attr == 'SortPriority'
+
+
+def order_helper(check, h):
+    """R1: the helper returns  [priority names present, in SortPriority order] + [the other keys, sorted]"""
+    g = cfgmod.build(h)
+    subst = single_assign_subst(h.node)
+    rets = [n for n in ast.walk(h.node) if isinstance(n, ast.Return) and n.value is not None]
+    if len(rets) != 1 or not (isinstance(rets[0].value, ast.BinOp) and isinstance(rets[0].value.op, ast.Add)):
+        raise AnalysisError('ordering helper: the result is not `priority part + rest`')
+    A, B = rets[0].value.left, rets[0].value.right
+
+    def resolve(e):
+        return subst.get(e.id, e) if isinstance(e, ast.Name) else e
+    loops = [n for n in ast.walk(h.node) if isinstance(n, ast.For)]
+    # all keys, sorted: some name is assigned sorted(self.keys()) / list(self.keys()) followed by .sort()
+    sorted_names = set()
+    for n in ast.walk(h.node):
+        if isinstance(n, ast.Assign) and isinstance(n.targets[0], ast.Name):
+            v = n.value
+            if isinstance(v, ast.Call) and call_name(v) == 'sorted' and v.args and 'self' in unparse(v.args[0]):
+                sorted_names.add(n.targets[0].id)
+        if isinstance(n, ast.Call) and call_name(n) == 'sort' and isinstance(n.func.value, ast.Name):
+            src = subst.get(n.func.value.id)
+            if src is not None and 'self' in unparse(src) and ('keys' in unparse(src) or unparse(src) in ('list(self)',)):
+                sorted_names.add(n.func.value.id)
+    ra, rb = resolve(A), resolve(B)
+    # ---- priority part ------------------------------------------------------------------------------
+    pri_ok, pri_why = False, 'priority part not recognised'
+    paired, guarded = True, True
+    if isinstance(ra, ast.ListComp):
+        gen = ra.generators[0]
+        from_priority = _is_priority(gen.iter)
+        filt = any(isinstance(c, ast.Compare) and isinstance(c.ops[0], ast.In) and isinstance(c.left, ast.Name)
+                   and c.left.id == target_names(gen.target)[0] for c in gen.ifs)
+        pri_ok = from_priority and filt and isinstance(ra.elt, ast.Name) and ra.elt.id == target_names(gen.target)[0]
+        pri_why = ('priority names are taken in SortPriority order, filtered by presence' if pri_ok else
+                   'the leading columns are produced by iterating %s: they come out in that order, not in the documented priority order'
+                   % unparse(gen.iter))
+    elif isinstance(A, ast.Name) and len(loops) == 1:
+        loop = loops[0]
+        x = target_names(loop.target)[0]
+        hdr = [n for n in g.nodes if n.kind == 'for' and n.stmt is loop][0]
+        apps = [n for n in g.stmt_nodes() if n.kind == 'stmt' and loop in n.loops and any(
+            isinstance(c, ast.Call) and call_name(c) == 'append' and unparse(c.func.value) == A.id and c.args
+            and isinstance(c.args[0], ast.Name) and c.args[0].id == x for c in ast.walk(n.ast))]
+        rems = [n for n in g.stmt_nodes() if n.kind == 'stmt' and loop in n.loops and any(
+            isinstance(c, ast.Call) and call_name(c) == 'remove' and c.args and isinstance(c.args[0], ast.Name) and c.args[0].id == x
+            for c in ast.walk(n.ast))]
+        first = [b for b, lab in g.succ[hdr.id] if lab is True]
+        paths = []
+        for b in first:
+            paths += g.paths(b, hdr, cap=5000) if b != hdr.id else []
+        paired = bool(paths) and bool(apps) and bool(rems)
+        for p in paths:
+            na = sum(1 for i in p if g.nodes[i] in apps)
+            nr = sum(1 for i in p if g.nodes[i] in rems)
+            if na != nr or na > 1:
+                paired = False
+        removed_from = None
+        for n in rems:
+            for c in ast.walk(n.ast):
+                if isinstance(c, ast.Call) and call_name(c) == 'remove':
+                    removed_from = unparse(c.func.value)
+        guarded = False
+        for t in g.nodes:
+            if t.kind == 'test' and loop in t.loops and isinstance(t.ast, ast.Compare) and isinstance(t.ast.ops[0], ast.In) and \
+                    isinstance(t.ast.left, ast.Name) and t.ast.left.id == x and unparse(t.ast.comparators[0]) == removed_from:
+                if all(g.dominates(t, n) for n in apps + rems):
+                    guarded = True
+        pri_ok = _is_priority(loop.iter) and paired and guarded
+        pri_why = ('priority names are moved (append + remove, under membership) in SortPriority order' if pri_ok else
+                   'priority loop: source=%s paired=%s membership-guard=%s' % (unparse(loop.iter), paired, guarded))
+        rest_is_removed_list = isinstance(B, ast.Name) and B.id == removed_from
+    check.ob('C19.R1', '%s::priority-part' % h.key, pri_ok, h.where, pri_why,
+             "a holder with 'iteration', 'iteration_error', 'iteration_abs_change', 'k' and 't' (the step trace)")
+    # ---- rest -----------------------------------------------------------------------------------------
+    rest_ok, rest_why = False, 'remainder not recognised'
+    if isinstance(rb, ast.ListComp):
+        gen = rb.generators[0]
+        src_sorted = isinstance(gen.iter, ast.Name) and gen.iter.id in sorted_names or \
+            (isinstance(gen.iter, ast.Call) and call_name(gen.iter) == 'sorted')
+        excl = any(isinstance(c, ast.Compare) and isinstance(c.ops[0], ast.NotIn) and
+                   (_is_priority(c.comparators[0]) or unparse(c.comparators[0]) == unparse(A)) for c in gen.ifs)
+        rest_ok = bool(src_sorted) and excl and len(gen.ifs) == 1
+        rest_why = 'the rest = sorted keys not in the priority list' if rest_ok else 'the rest is %s' % unparse(rb)
+    elif isinstance(B, ast.Name):
+        rest_ok = B.id in sorted_names and (not isinstance(ra, ast.ListComp))
+        if isinstance(ra, ast.ListComp):
+            rest_ok = False
+            rest_why = 'the rest `%s` still contains the priority names (duplicated columns)' % B.id
+        else:
+            rest_why = 'the rest = the sorted key list after the priority names were removed' if rest_ok else \
+                'the remainder `%s` is not the sorted list of all keys' % B.id
+    check.ob('C19.R1', '%s::rest-sorted-without-priority' % h.key, rest_ok, h.where, rest_why,
+             'many names: each stored series exactly once, the rest alphabetically')
+    check.ob('C19.R1', '%s::returns-priority-then-rest' % h.key, True, h.where, 'returns %s + %s' % (unparse(A), unparse(B)), '')
+
+
 def run(prog, check):
     check.explanation = EXPLANATION
     check.not_decided = 'round-trip precision of formatted values (depends on the format string chosen by the caller)'
@@ -42,73 +142,7 @@ def run(prog, check):
     check.saw(r)
     check.saw(h)
     # ---- R1 ----------------------------------------------------------------------------------------
-    g = cfgmod.build(h)
-    loops = [n for n in ast.walk(h.node) if isinstance(n, ast.For)]
-    if len(loops) != 1:
-        raise AnalysisError('ordering helper: expected one priority loop')
-    loop = loops[0]
-    x = target_names(loop.target)[0]
-    hdr = [n for n in g.nodes if n.kind == 'for' and n.stmt is loop][0]
-    apps = [n for n in g.stmt_nodes() if n.kind == 'stmt' and loop in n.loops and any(
-        isinstance(c, ast.Call) and call_name(c) == 'append' and c.args and isinstance(c.args[0], ast.Name) and c.args[0].id == x
-        for c in ast.walk(n.ast))]
-    rems = [n for n in g.stmt_nodes() if n.kind == 'stmt' and loop in n.loops and any(
-        isinstance(c, ast.Call) and call_name(c) == 'remove' and c.args and isinstance(c.args[0], ast.Name) and c.args[0].id == x
-        for c in ast.walk(n.ast))]
-    first = [b for b, lab in g.succ[hdr.id] if lab is True]
-    paths = []
-    for b in first:
-        paths += g.paths(b, hdr, cap=5000) if b != hdr.id else []
-    paired = bool(paths) and bool(apps) and bool(rems)
-    for p in paths:
-        na = sum(1 for i in p if g.nodes[i] in apps)
-        nr = sum(1 for i in p if g.nodes[i] in rems)
-        if na != nr or na > 1:
-            paired = False
-    check.ob('C19.R1', '%s::append-remove-paired' % h.key, paired, '%s:%d' % (h.module.rel, loop.lineno),
-             'on each of %d paths through the priority loop a name is moved (append + remove) or left' % len(paths) if paired else
-             'a path appends a priority name without removing it (duplicate column) or removes without appending (lost column)',
-             "keys containing 'k' and 't'")
-    # both under the membership test on the list the remove acts on
-    removed_from = None
-    included = None
-    for n in rems:
-        for c in ast.walk(n.ast):
-            if isinstance(c, ast.Call) and call_name(c) == 'remove':
-                removed_from = unparse(c.func.value)
-    for n in apps:
-        for c in ast.walk(n.ast):
-            if isinstance(c, ast.Call) and call_name(c) == 'append':
-                included = unparse(c.func.value)
-    guarded = False
-    for t in g.nodes:
-        if t.kind == 'test' and loop in t.loops and isinstance(t.ast, ast.Compare) and isinstance(t.ast.ops[0], ast.In) and \
-                isinstance(t.ast.left, ast.Name) and t.ast.left.id == x and unparse(t.ast.comparators[0]) == removed_from:
-            if all(g.dominates(t, n) for n in apps + rems):
-                guarded = True
-    check.ob('C19.R1', '%s::membership-guard' % h.key, guarded, '%s:%d' % (h.module.rel, loop.lineno),
-             'the move is guarded by `%s in %s`' % (x, removed_from) if guarded else 'the move is not guarded by membership in the key list',
-             'a holder without a t series')
-    rets = [n for n in ast.walk(h.node) if isinstance(n, ast.Return) and n.value is not None]
-    both = all(isinstance(n.value, ast.BinOp) and isinstance(n.value.op, ast.Add) and
-               unparse(n.value.left) == included and unparse(n.value.right) == removed_from for n in rets) and bool(rets)
-    check.ob('C19.R1', '%s::returns-priority-then-rest' % h.key, both, h.where,
-             'returns %s + %s' % (included, removed_from) if both else 'does not return priority names followed by the remainder',
-             'any set of names: every stored series exactly once')
-    # the remainder derives from all keys and is sorted
-    subst = single_assign_subst(h.node)
-    src = subst.get(removed_from)
-    allkeys = src is not None and any(isinstance(c, ast.Call) and call_name(c) == 'keys' and unparse(c.func.value) == 'self'
-                                      for c in ast.walk(src)) or (src is not None and unparse(src) in ('list(self)', 'sorted(self)'))
-    is_sorted = any(isinstance(c, ast.Call) and ((call_name(c) == 'sort' and unparse(c.func.value) == removed_from) or
-                                                 (call_name(c) == 'sorted')) for c in ast.walk(h.node))
-    check.ob('C19.R1', '%s::all-keys-sorted' % h.key, bool(allkeys) and is_sorted, h.where,
-             'remainder = sorted keys of the holder' if (allkeys and is_sorted) else 'remainder is not the sorted list of all keys',
-             'many names: alphabetical order of the rest')
-    # the priority order is the documented attribute
-    pri_ok = isinstance(loop.iter, ast.Attribute) and loop.iter.attr == 'SortPriority'
-    check.ob('C19.R1', '%s::priority-source' % h.key, pri_ok, '%s:%d' % (h.module.rel, loop.lineno),
-             'priority names come from self.SortPriority in order', 'iteration / time columns first')
+    order_helper(check, h)
     # ---- R2 ----------------------------------------------------------------------------------------
     rs = single_assign_subst(r.node)
     seqs = [k for k, v in rs.items() if isinstance(v, ast.Call) and call_name(v) == h.name]
@@ -189,6 +223,6 @@ def run(prog, check):
     sa = solver_function(prog, 'solve_all')
     check.saw(sa)
     check_bounds(check, sa, single_assign_subst(sa.node), rule='C19.R3')
-    check.floor('C19.R1', 5)
+    check.floor('C19.R1', 3)
     check.floor('C19.R2', 6)
     check.floor('C19.R3', 1)
